@@ -69,8 +69,9 @@ HISTORY.update({
     "b3_C02_2": "missed as built (max() was whitelisted as value-preserving); C02-P2 now treats multi-argument min/max as a clamp",
     "b3_C02_3": "missed as built; rule C02-P9 added (Probability returns its argument)",
     "b3_C03_1": "missed as built; the import simulator now tracks attribute reads on partially initialised modules (I1)",
-    "b3_C03_2": "MISSED, as built and now: the chain runs through a value produced by solve(...).subs(...), which the must-contain expansion of I6 cannot look into "
-                "(a may-contain expansion reported seven false alarms on the pristine tree and was withdrawn)",
+    "b3_C03_2": "missed as built (the chain runs through solve(law, s)[0].subs({...})); caught after the must-contain expansion of I6 learnt two sound steps: a .subs whose key "
+                "the base certainly contains puts the value's content in its place, and the solution of an equation written with every symbol once depends on every other symbol "
+                "(a may-contain expansion had reported seven false alarms on the pristine tree and was withdrawn)",
     "b3_C03_3": "missed as built; rule C03-I7 added (positional use of name-ordered collections)",
     "b3_C04_1": "caught as built", "b3_C04_2": "missed as built; C04-K3 extended (every checked component derives from the element)", "b3_C04_3": "caught as built",
     "b3_C05_1": "caught as built", "b3_C05_2": "caught as built", "b3_C05_3": "missed as built; rule S7 added (collected factor used on every path of the iteration)",
